@@ -569,55 +569,12 @@ Proof.
   apply (Permutation_in _ (sort_by_key_perm _ _)) in Hs. apply filter_In in Hs. tauto.
 Qed.
 
-(* (c) the enum/default swaps only exchange ModifyColumnType / ModifyColumnDefault positions *)
-Definition cproj (a : action) : option action := if is_create a then Some a else None.
-Definition noncreate_at (l : list action) (i : nat) : Prop :=
-  forall y, nth_error l i = Some y -> is_create y = false.
-
-Lemma filter_create_cproj : forall l l', map cproj l = map cproj l' -> filter is_create l = filter is_create l'.
-Proof.
-  induction l as [|a r IH]; intros [|b r'] H; try discriminate; [reflexivity|].
-  cbn [map] in H. injection H as Hab Hr. cbn [filter]. unfold cproj in Hab.
-  destruct (is_create a), (is_create b); try discriminate; [injection Hab as ->; f_equal|]; auto.
-Qed.
-
-Lemma noncreate_cproj l l' i : map cproj l = map cproj l' -> noncreate_at l' i -> noncreate_at l i.
-Proof.
-  intros E H y Hy. apply (map_nth_error cproj) in Hy. rewrite E in Hy.
-  destruct (nth_error l' i) as [z|] eqn:Ez.
-  - rewrite (map_nth_error cproj _ _ Ez) in Hy. specialize (H z Ez).
-    injection Hy as Hy. unfold cproj in Hy. rewrite H in Hy. now destruct (is_create y).
-  - apply nth_error_None in Ez. assert (L : List.length (map cproj l') <= i) by now rewrite map_length.
-    apply nth_error_None in L. congruence.
-Qed.
-
-Lemma update_nth_cproj : forall n x l, is_create x = false -> noncreate_at l n ->
-  map cproj (update_nth n x l) = map cproj l.
-Proof.
-  induction n as [|n IH]; intros x [|y r] Hx Hy; cbn [update_nth map]; try reflexivity.
-  - f_equal. unfold cproj. rewrite Hx, (Hy y eq_refl). reflexivity.
-  - f_equal. apply IH; auto.
-Qed.
-
-Lemma swap_nth_cproj i j l : noncreate_at l i -> noncreate_at l j ->
-  map cproj (swap_nth i j l) = map cproj l.
-Proof.
-  intros Hi Hj. unfold swap_nth.
-  destruct (nth_error l i) as [a|] eqn:Ea; [|reflexivity].
-  destruct (nth_error l j) as [b|] eqn:Eb; [|reflexivity].
-  assert (E1 : map cproj (update_nth i b l) = map cproj l) by (apply update_nth_cproj; auto).
-  rewrite update_nth_cproj; [exact E1 | now apply Hi |]. eapply noncreate_cproj; eauto.
-Qed.
-
-Lemma swaps_cproj l0 : forall swaps l, map cproj l = map cproj l0 ->
-  (forall ij, In ij swaps -> noncreate_at l0 (fst ij) /\ noncreate_at l0 (snd ij)) ->
-  map cproj (fold_left (fun l ij => swap_nth (fst ij) (snd ij) l) swaps l) = map cproj l0.
-Proof.
-  induction swaps as [|ij r IH]; intros l E H; cbn [fold_left]; [exact E|].
-  apply IH; [|intros; apply H; now right].
-  destruct (H ij (or_introl eq_refl)) as [Hi Hj].
-  rewrite swap_nth_cproj; [exact E | |]; eapply noncreate_cproj; eauto.
-Qed.
+(* (c) the enum/default swaps only exchange ModifyColumnType / ModifyColumnDefault positions, so the
+   sub-list of actions selected by any predicate that rejects those two kinds is untouched *)
+Definition is_modify_td (a : action) : bool :=
+  match a with ModifyColumnType _ _ _ _ | ModifyColumnDefault _ _ _ => true | _ => false end.
+Definition modify_at (l : list action) (i : nat) : Prop :=
+  forall y, nth_error l i = Some y -> is_modify_td y = true.
 
 Lemma pm_insert_in {V} k (v : V) : forall m e, In e (pm_insert k v m) -> e = (k, v) \/ In e m.
 Proof.
@@ -640,16 +597,16 @@ Qed.
 Lemma collect_changes_good ACTS : forall acts pre tc dc tc' dc',
   ACTS = pre ++ acts ->
   collect_changes (List.length pre) acts tc dc = (tc', dc') ->
-  (forall k i nt, In (k, (i, nt)) tc -> noncreate_at ACTS i) ->
-  (forall k j, In (k, j) dc -> noncreate_at ACTS j) ->
-  (forall k i nt, In (k, (i, nt)) tc' -> noncreate_at ACTS i) /\
-  (forall k j, In (k, j) dc' -> noncreate_at ACTS j).
+  (forall k i nt, In (k, (i, nt)) tc -> modify_at ACTS i) ->
+  (forall k j, In (k, j) dc -> modify_at ACTS j) ->
+  (forall k i nt, In (k, (i, nt)) tc' -> modify_at ACTS i) /\
+  (forall k j, In (k, j) dc' -> modify_at ACTS j).
 Proof.
   induction acts as [|a r IH]; intros pre tc dc tc' dc' E H Htc Hdc.
   - cbn [collect_changes] in H. inversion H; subst. auto.
   - assert (E' : ACTS = (pre ++ [a]) ++ r) by (rewrite <- app_assoc; exact E).
     assert (L : List.length (pre ++ [a]) = S (List.length pre)) by (rewrite app_length; cbn [List.length]; lia).
-    assert (Ga : is_create a = false -> noncreate_at ACTS (List.length pre)).
+    assert (Ga : is_modify_td a = true -> modify_at ACTS (List.length pre)).
     { intros Ha y Hy. rewrite E, nth_error_app2, PeanoNat.Nat.sub_diag in Hy by lia.
       cbn [nth_error] in Hy. inversion Hy; subst; auto. }
     cbn [collect_changes] in H. rewrite <- L in H.
@@ -661,7 +618,7 @@ Proof.
 Qed.
 
 Lemma enum_swaps_good acts fm ij : In ij (enum_swaps acts fm) ->
-  noncreate_at acts (fst ij) /\ noncreate_at acts (snd ij).
+  modify_at acts (fst ij) /\ modify_at acts (snd ij).
 Proof.
   unfold enum_swaps. destruct (collect_changes 0 acts [] []) as [tc dc] eqn:E.
   destruct (collect_changes_good acts acts [] [] [] tc dc eq_refl E) as [Htc Hdc];
@@ -676,12 +633,72 @@ Proof.
   apply pm_get_in in Ed. destruct Ed as [k' Hd]. split; eauto.
 Qed.
 
+Section SwapsKeep.
+  Variable p : action -> bool.
+  Hypothesis p_not_modify : forall a, is_modify_td a = true -> p a = false.
+
+  Definition pproj (a : action) : option action := if p a then Some a else None.
+  Definition nonp_at (l : list action) (i : nat) : Prop :=
+    forall y, nth_error l i = Some y -> p y = false.
+
+  Lemma filter_pproj : forall l l', map pproj l = map pproj l' -> filter p l = filter p l'.
+  Proof.
+    induction l as [|a r IH]; intros [|b r'] H; try discriminate; [reflexivity|].
+    cbn [map] in H. injection H as Hab Hr. cbn [filter]. unfold pproj in Hab.
+    destruct (p a), (p b); try discriminate; [injection Hab as ->; f_equal|]; auto.
+  Qed.
+
+  Lemma nonp_pproj l l' i : map pproj l = map pproj l' -> nonp_at l' i -> nonp_at l i.
+  Proof.
+    intros E H y Hy. apply (map_nth_error pproj) in Hy. rewrite E in Hy.
+    destruct (nth_error l' i) as [z|] eqn:Ez.
+    - rewrite (map_nth_error pproj _ _ Ez) in Hy. specialize (H z Ez).
+      injection Hy as Hy. unfold pproj in Hy. rewrite H in Hy. now destruct (p y).
+    - apply nth_error_None in Ez. assert (L : List.length (map pproj l') <= i) by now rewrite map_length.
+      apply nth_error_None in L. congruence.
+  Qed.
+
+  Lemma update_nth_pproj : forall n x l, p x = false -> nonp_at l n ->
+    map pproj (update_nth n x l) = map pproj l.
+  Proof.
+    induction n as [|n IH]; intros x [|y r] Hx Hy; cbn [update_nth map]; try reflexivity.
+    - f_equal. unfold pproj. rewrite Hx, (Hy y eq_refl). reflexivity.
+    - f_equal. apply IH; auto.
+  Qed.
+
+  Lemma swap_nth_pproj i j l : nonp_at l i -> nonp_at l j ->
+    map pproj (swap_nth i j l) = map pproj l.
+  Proof.
+    intros Hi Hj. unfold swap_nth.
+    destruct (nth_error l i) as [a|] eqn:Ea; [|reflexivity].
+    destruct (nth_error l j) as [b|] eqn:Eb; [|reflexivity].
+    assert (E1 : map pproj (update_nth i b l) = map pproj l) by (apply update_nth_pproj; auto).
+    rewrite update_nth_pproj; [exact E1 | now apply Hi |]. eapply nonp_pproj; eauto.
+  Qed.
+
+  Lemma swaps_pproj l0 : forall swaps l, map pproj l = map pproj l0 ->
+    (forall ij, In ij swaps -> nonp_at l0 (fst ij) /\ nonp_at l0 (snd ij)) ->
+    map pproj (fold_left (fun l ij => swap_nth (fst ij) (snd ij) l) swaps l) = map pproj l0.
+  Proof.
+    induction swaps as [|ij r IH]; intros l E H; cbn [fold_left]; [exact E|].
+    apply IH; [|intros; apply H; now right].
+    destruct (H ij (or_introl eq_refl)) as [Hi Hj].
+    rewrite swap_nth_pproj; [exact E | |]; eapply nonp_pproj; eauto.
+  Qed.
+
+  Lemma sort_enum_keeps acts fm :
+    filter p (sort_enum_default_dependencies acts fm) = filter p acts.
+  Proof.
+    apply filter_pproj. unfold sort_enum_default_dependencies.
+    apply swaps_pproj; [reflexivity|]. intros ij Hij.
+    destruct (enum_swaps_good _ _ _ Hij) as [H1 H2].
+    split; intros y Hy; apply p_not_modify; [apply (H1 y Hy) | apply (H2 y Hy)].
+  Qed.
+End SwapsKeep.
+
 Lemma sort_enum_creates acts fm :
   filter is_create (sort_enum_default_dependencies acts fm) = filter is_create acts.
-Proof.
-  apply filter_create_cproj. unfold sort_enum_default_dependencies.
-  apply swaps_cproj; [reflexivity|]. intros ij. apply enum_swaps_good.
-Qed.
+Proof. apply sort_enum_keeps. intros a Ha. destruct a; try discriminate; reflexivity. Qed.
 
 (* (d) only the third block of a diff contains CreateTable actions *)
 Lemma table_group_no_create name ft tt a : In a (table_group name ft tt) -> is_create a = false.
@@ -918,3 +935,228 @@ Lemma C06_full_statement_refuted :
 Proof.
   intro H. specialize (H w_drop_B w_drop_T eq_refl eq_refl). vm_compute in H. discriminate.
 Qed.
+
+(* ---------- 9. dropped tables: a referencing table is dropped before the table it references ---------- *)
+Definition deleted_tables (acts : list action) : list string := map delete_name (filter is_delete_table acts).
+
+Lemma in_two_split {A} (a b : A) l : In a l -> In b l -> a <> b ->
+  (exists l1 l2 l3, l = l1 ++ a :: l2 ++ b :: l3) \/ (exists l1 l2 l3, l = l1 ++ b :: l2 ++ a :: l3).
+Proof.
+  intros Ha Hb Hab. apply in_split in Ha. destruct Ha as [l1 [r ->]].
+  apply in_app_or in Hb. destruct Hb as [Hb|[Hb|Hb]]; [|congruence|].
+  - right. apply in_split in Hb. destruct Hb as [p [q ->]]. exists p, q, r.
+    rewrite <- app_assoc. reflexivity.
+  - left. apply in_split in Hb. destruct Hb as [p [q ->]]. now exists l1, p, q.
+Qed.
+
+Lemma find_index_split l1 x l2 : ~ In x l1 ->
+  find_index (String.eqb x) (l1 ++ x :: l2) = Some (List.length l1).
+Proof.
+  induction l1 as [|y r IH]; intro H; cbn [app find_index List.length].
+  - now rewrite String.eqb_refl.
+  - assert (E : String.eqb x y = false).
+    { apply String.eqb_neq. intros ->. apply H. now left. }
+    rewrite E, IH; [reflexivity|]. intro Hin. apply H. now right.
+Qed.
+
+Lemma put_back_deletes : forall acts sorted,
+  (forall s, In s sorted -> is_delete_table s = true) ->
+  List.length sorted = List.length (filter is_delete_table acts) ->
+  filter is_delete_table (put_back acts sorted) = sorted.
+Proof.
+  induction acts as [|a r IH]; intros sorted Hs Hl.
+  - destruct sorted; [reflexivity|discriminate].
+  - cbn [put_back]. cbn [filter] in Hl. destruct (is_delete_table a) eqn:Ed.
+    + destruct sorted as [|s ss]; [discriminate|]. cbn [filter].
+      rewrite (Hs s (or_introl eq_refl)). f_equal. apply IH; [intros; apply Hs; now right|].
+      cbn [List.length] in Hl. lia.
+    + cbn [filter]. rewrite Ed. now apply IH.
+Qed.
+
+Lemma is_delete_name a : is_delete_table a = true -> a = DeleteTable (delete_name a).
+Proof. destruct a; try discriminate. reflexivity. Qed.
+
+Lemma deleted_tables_in acts x : In x (deleted_tables acts) <-> In (DeleteTable x) (filter is_delete_table acts).
+Proof.
+  unfold deleted_tables. rewrite in_map_iff. split.
+  - intros [a [E Ha]]. pose proof Ha as Hf. apply filter_In in Hf.
+    rewrite (is_delete_name a (proj2 Hf)) in Ha. now rewrite E in Ha.
+  - intro H. exists (DeleteTable x). split; [reflexivity|exact H].
+Qed.
+
+Lemma sort_delete_tables_perm acts all :
+  Permutation (deleted_tables (sort_delete_tables acts all)) (deleted_tables acts).
+Proof.
+  rewrite sort_delete_tables_unfold. cbn zeta.
+  destruct (Nat.leb _ 1); [apply Permutation_refl|].
+  destruct (kahn _) as [order|]; [|apply Permutation_refl].
+  unfold deleted_tables at 1. rewrite put_back_deletes.
+  - apply Permutation_map, sort_by_key_perm.
+  - intros s Hs. apply (Permutation_in _ (sort_by_key_perm _ _)) in Hs. apply filter_In in Hs. tauto.
+  - apply Permutation_length, sort_by_key_perm.
+Qed.
+
+Theorem sort_delete_tables_sound acts all (rank : string -> nat) :
+  (forall n td rt, In n (deleted_tables acts) -> bt_get n all = Some td -> In rt (fk_targets td) ->
+     rt <> n -> In rt (deleted_tables acts) -> rank rt < rank n) ->
+  forall x y td, In x (deleted_tables acts) -> In y (deleted_tables acts) ->
+    bt_get x all = Some td -> In y (fk_targets td) -> y <> x ->
+    exists l1 l2 l3, deleted_tables (sort_delete_tables acts all) = l1 ++ x :: l2 ++ y :: l3.
+Proof.
+  intros Hrank x y td Hx Hy Hg Hfk Hne.
+  set (dels := filter is_delete_table acts).
+  assert (Dx : In (DeleteTable x) dels) by now apply deleted_tables_in.
+  assert (Dy : In (DeleteTable y) dels) by now apply deleted_tables_in.
+  assert (Dne : DeleteTable x <> DeleteTable y) by congruence.
+  rewrite sort_delete_tables_unfold. cbn zeta. fold dels.
+  assert (L : Nat.leb (List.length dels) 1 = false).
+  { apply PeanoNat.Nat.leb_gt.
+    destruct (in_two_split _ _ _ Dx Dy Dne) as [[l1 [l2 [l3 E]]]|[l1 [l2 [l3 E]]]]; rewrite E;
+      rewrite !app_length; cbn [List.length]; rewrite !app_length; cbn [List.length]; lia. }
+  rewrite L.
+  set (dnames := bs_of_list (deleted_tables acts)).
+  assert (Dn : forall n, In n dnames <-> In n (deleted_tables acts)) by (intro; apply bs_of_list_in).
+  assert (Keys : map fst (delete_deps acts all) = dnames).
+  { unfold delete_deps. cbn zeta. rewrite map_map. cbn [fst]. now rewrite map_id. }
+  assert (Dof : forall n ds, In (n, ds) (delete_deps acts all) ->
+            In n dnames /\ ds = match bt_get n all with
+                                | Some td => bs_of_list (filter (fun rt => (mem_str rt dnames && negb (String.eqb rt n))%bool) (fk_targets td))
+                                | None => [] end).
+  { intros n ds Hin. unfold delete_deps in Hin. cbn zeta in Hin. apply in_map_iff in Hin.
+    destruct Hin as [n' [E Hn']]. inversion E; subst. auto. }
+  assert (Din : forall n ds d, In (n, ds) (delete_deps acts all) -> In d ds ->
+            exists td', bt_get n all = Some td' /\ In d (fk_targets td') /\ In d dnames /\ d <> n).
+  { intros n ds d Hin Hd. destruct (Dof _ _ Hin) as [Hn ->].
+    destruct (bt_get n all) as [td'|]; [|destruct Hd]. exists td'. split; [reflexivity|].
+    apply bs_of_list_in, filter_In in Hd. destruct Hd as [H1 H2].
+    apply Bool.andb_true_iff in H2. destruct H2 as [H2 H3].
+    apply mem_str_In in H2. apply Bool.negb_true_iff, String.eqb_neq in H3. auto. }
+  assert (Knd : NoDup (map fst (delete_deps acts all))) by (rewrite Keys; apply bs_of_list_nodup).
+  destruct (kahn_complete (delete_deps acts all) rank Knd) as [order [Ek Pk]].
+  { intros n ds Hin. split.
+    - destruct (Dof _ _ Hin) as [_ ->]. destruct (bt_get n all); [apply bs_of_list_nodup|constructor].
+    - intros d Hd. destruct (Din _ _ _ Hin Hd) as [td' [_ [_ [H _]]]]. now rewrite Keys. }
+  { intros n ds d Hin Hd. destruct (Din _ _ _ Hin Hd) as [td' [G [F [H N]]]].
+    destruct (Dof _ _ Hin) as [Hn _]. apply (Hrank n td' d); auto; now apply Dn. }
+  rewrite Ek.
+  (* x depends on y *)
+  assert (Hxin : In (x, bs_of_list (filter (fun rt => (mem_str rt dnames && negb (String.eqb rt x))%bool) (fk_targets td)))
+                    (delete_deps acts all)).
+  { unfold delete_deps. cbn zeta. apply in_map_iff. exists x. rewrite Hg. split; [reflexivity|]. now apply Dn. }
+  assert (Hyd : In y (bs_of_list (filter (fun rt => (mem_str rt dnames && negb (String.eqb rt x))%bool) (fk_targets td)))).
+  { apply bs_of_list_in, filter_In. split; [exact Hfk|]. apply Bool.andb_true_iff. split.
+    - apply mem_str_In. now apply Dn.
+    - apply Bool.negb_true_iff, String.eqb_neq. exact Hne. }
+  assert (Hxo : In x order).
+  { eapply Permutation_in; [apply Permutation_sym; exact Pk|]. rewrite Keys. now apply Dn. }
+  destruct (kahn_sound _ _ Knd Ek _ _ _ Hxin Hxo Hyd) as [a [b [c Eo]]].
+  destruct (kahn_nodup _ _ Knd Ek) as [Ond _].
+  set (ro := rev order).
+  assert (Ero : ro = rev c ++ x :: rev b ++ y :: rev a).
+  { unfold ro. rewrite Eo, rev_app_distr. cbn [rev]. rewrite rev_app_distr. cbn [rev].
+    rewrite <- !app_assoc. reflexivity. }
+  assert (Rnd : NoDup ro) by (eapply Permutation_NoDup; [apply Permutation_rev|exact Ond]).
+  set (pos := fun a0 : action => match find_index (String.eqb (delete_name a0)) ro with Some i => i | None => 0 end).
+  assert (Px : pos (DeleteTable x) = List.length (rev c)).
+  { unfold pos. cbn [delete_name]. rewrite Ero, find_index_split; [reflexivity|].
+    rewrite Ero in Rnd. apply NoDup_remove_2 in Rnd. intro H. apply Rnd. apply in_or_app. now left. }
+  assert (Py : pos (DeleteTable y) = List.length (rev c ++ x :: rev b)).
+  { unfold pos. cbn [delete_name]. rewrite Ero.
+    replace (rev c ++ x :: rev b ++ y :: rev a) with ((rev c ++ x :: rev b) ++ y :: rev a)
+      by (rewrite <- app_assoc; reflexivity).
+    rewrite find_index_split; [reflexivity|].
+    rewrite Ero in Rnd.
+    replace (rev c ++ x :: rev b ++ y :: rev a) with ((rev c ++ x :: rev b) ++ y :: rev a) in Rnd
+      by (rewrite <- app_assoc; reflexivity).
+    apply NoDup_remove_2 in Rnd. intro H. apply Rnd. apply in_or_app. now left. }
+  fold ro. fold pos.
+  assert (Sperm : Permutation (sort_by_key pos dels) dels) by apply sort_by_key_perm.
+  unfold deleted_tables. rewrite put_back_deletes.
+  - assert (Sx : In (DeleteTable x) (sort_by_key pos dels))
+      by (eapply Permutation_in; [apply Permutation_sym; exact Sperm|exact Dx]).
+    assert (Sy : In (DeleteTable y) (sort_by_key pos dels))
+      by (eapply Permutation_in; [apply Permutation_sym; exact Sperm|exact Dy]).
+    destruct (in_two_split _ _ _ Sx Sy Dne) as [[l1 [l2 [l3 E]]]|[l1 [l2 [l3 E]]]].
+    + exists (map delete_name l1), (map delete_name l2), (map delete_name l3).
+      rewrite E, map_app. cbn [map]. rewrite map_app. reflexivity.
+    + exfalso. pose proof (sort_by_key_sorted pos dels) as S. rewrite E in S.
+      apply sorted_split_le in S. rewrite Px, Py, app_length in S. cbn [List.length] in S. lia.
+  - intros s Hs. apply (Permutation_in _ Sperm) in Hs. apply filter_In in Hs. tauto.
+  - now apply Permutation_length.
+Qed.
+
+(* the later passes keep the DeleteTable actions in place relative to each other *)
+Lemma filter_filter_implies {A} (p q : A -> bool) : (forall a, p a = true -> q a = true) ->
+  forall l, filter p (filter q l) = filter p l.
+Proof.
+  intros H. induction l as [|a r IH]; [reflexivity|]. cbn [filter].
+  destruct (q a) eqn:Eq; cbn [filter]; destruct (p a) eqn:Ep; try (now rewrite IH).
+  rewrite (H a Ep) in Eq. discriminate.
+Qed.
+
+Lemma sort_create_keeps_deletes acts :
+  filter is_delete_table (sort_create_before_add_constraint acts) = filter is_delete_table acts.
+Proof.
+  unfold sort_create_before_add_constraint. destruct (created_tables acts) as [|c0 cr] eqn:Ec; [reflexivity|].
+  rewrite <- Ec. set (key := create_rank (created_tables acts)).
+  assert (H : forall a, is_delete_table a = true -> Nat.eqb (key a) 1 = true).
+  { intros a Ha. destruct a; try discriminate. reflexivity. }
+  rewrite <- (filter_filter_implies _ _ H (sort_by_key key acts)), <- (filter_filter_implies _ _ H acts).
+  now rewrite sort_by_key_stable.
+Qed.
+
+Theorem diff_deletes_in_fk_order A B An acts (rank : string -> nat) :
+  NoDup (map t_name A) -> normalize_all A = Ok An -> diff_actions A B = Ok acts ->
+  (forall t rt, In t An -> In (t_name t) (deleted_tables acts) -> In rt (fk_targets t) ->
+     rt <> t_name t -> In rt (deleted_tables acts) -> rank rt < rank (t_name t)) ->
+  forall t rt, In t An -> In (t_name t) (deleted_tables acts) -> In rt (fk_targets t) ->
+    rt <> t_name t -> In rt (deleted_tables acts) ->
+    exists l1 l2 l3, deleted_tables acts = l1 ++ t_name t :: l2 ++ rt :: l3.
+Proof.
+  intros HndA EA Hd Hrank t rt Ht Htd Hfk Hne Hrd.
+  unfold diff_actions in Hd. rewrite EA in Hd.
+  destruct (normalize_all B) as [Bn|e] eqn:EB; [|discriminate]. cbn zeta in Hd.
+  set (fm := bt_of_list (map (fun t => (t_name t, t)) An)) in *.
+  destruct (topo_sort _) as [sorted| |]; try discriminate.
+  match type of Hd with Ok (sort_enum_default_dependencies (sort_create_before_add_constraint (sort_delete_tables ?a _)) _) = _ =>
+    set (a0 := a) in * end.
+  inversion Hd as [Hacts]; clear Hd.
+  assert (Ed : deleted_tables acts = deleted_tables (sort_delete_tables a0 fm)).
+  { rewrite <- Hacts. unfold deleted_tables. f_equal.
+    rewrite sort_enum_keeps; [apply sort_create_keeps_deletes|].
+    intros a Ha. destruct a; try discriminate; reflexivity. }
+  assert (Mem : forall n, In n (deleted_tables a0) <-> In n (deleted_tables acts)).
+  { intro n. rewrite Ed. split; intro H.
+    - eapply Permutation_in; [apply Permutation_sym, sort_delete_tables_perm|exact H].
+    - eapply Permutation_in; [apply sort_delete_tables_perm|exact H]. }
+  assert (Fm : forall n td, bt_get n fm = Some td -> In td An /\ t_name td = n).
+  { intros n td Hg. apply bt_get_in, bt_of_list_in, in_map_iff in Hg. destruct Hg as [t' [E Hin]].
+    inversion E; subst. auto. }
+  assert (Gt : bt_get (t_name t) fm = Some t).
+  { destruct (tmap_get An) with (n := t_name t) as [t' [Hg [Hin En]]].
+    - rewrite (nall_names _ _ EA). exact HndA.
+    - now apply in_map.
+    - fold fm in Hg. rewrite Hg. f_equal. apply (nodup_map_inj t_name An); auto.
+      rewrite (nall_names _ _ EA). exact HndA. }
+  rewrite Hacts, Ed. apply (sort_delete_tables_sound a0 fm rank) with (td := t); auto.
+  - intros n td r Hn Hg Hr Hnr Hrn. destruct (Fm _ _ Hg) as [Hin <-].
+    apply Hrank; auto; now apply Mem.
+  - now apply Mem.
+  - now apply Mem.
+Qed.
+
+(* dropping two tables that reference each other: no order of the two DeleteTable actions is consistent,
+   and no RemoveConstraint is planned first; outside both classifiers *)
+Definition w_dropcycle_B : schema :=
+  [mkTable "a" None [w_pkcol "id"; w_fkcol "b_id" "b.id"]
+     [CPrimaryKey false ["id"]; CForeignKey None ["b_id"] "b" ["id"] None None];
+   mkTable "b" None [w_pkcol "id"; w_fkcol "a_id" "a.id"]
+     [CPrimaryKey false ["id"]; CForeignKey None ["a_id"] "a" ["id"] None None];
+   mkTable "c" None [w_pkcol "id"] [CPrimaryKey false ["id"]]].
+Definition w_dropcycle_T : schema := [mkTable "c" None [w_pkcol "id"] []].
+
+Lemma C06_drop_fk_cycle_refuted :
+  exists B T, loader_accepts B = true /\ loader_accepts T = true /\ consistent B = true /\
+              diff_actions B T = Ok [DeleteTable "a"; DeleteTable "b"] /\ plan_stepwise_ok B T = false /\
+              known_drop_before_unreference B T = false /\ known_shrunk_constraint B T = false.
+Proof. exists w_dropcycle_B, w_dropcycle_T. repeat split; vm_compute; reflexivity. Qed.
